@@ -27,6 +27,7 @@ try:
     out = r.stdout.decode(errors="replace")
     lines = [l for l in out.splitlines() if l.startswith(("VIOLATION", "  key=", "  what=", "KNOWN", "INCONCLUSIVE", "CHECK", "SUMMARY"))]
     print("\n".join(lines[-14:]))
+    print("KEYS: " + ", ".join(sorted({l.strip()[4:] for l in lines if l.startswith("  key=")})[:12]))
     print("MUTANT %s: %s" % (cid, {0: "MISSED (exit 0)", 1: "CAUGHT", 2: "INCONCLUSIVE"}.get(r.returncode, "exit %d" % r.returncode)))
     if not os.environ.get("MUTTEST_KEEP"):
         # the run's work dir (witnesses of the mutant) is only kept on request
